@@ -15,9 +15,29 @@ static std::string call_tag(ChaiScript &chai, const std::string &name, int arity
   std::string src = name + "(";
   for (int i = 0; i < arity; ++i) src += (i ? ", " : "") + std::string("\"s\"");   // string arguments: no arithmetic conversions in play
   src += ")";
-  try {
-    return std::to_string(chai.eval<int>(src));
-  } catch (...) { return "-"; }
+  std::string fresh, plain, method;
+  try { fresh = std::to_string(chai.eval<int>(src)); } catch (...) { fresh = "-"; }
+  // the same question asked by code that was parsed ONCE, before the history began (its call sites keep their lookup hints across set_state):
+  // it must get the answer freshly parsed code gets
+  const std::string tail = name + "_" + std::to_string(arity) + "()";
+  try { plain = std::to_string(chai.eval<int>("pobs_" + tail)); } catch (...) { plain = "-"; }
+  if (arity > 0) { try { method = std::to_string(chai.eval<int>("pobm_" + tail)); } catch (...) { method = "-"; } } else method = fresh;
+  if (plain != fresh || method != fresh) return fresh + "!STALE-CALL-SITE(" + plain + "/" + method + ")";
+  return fresh;
+}
+
+static void define_persistent_observers(ChaiScript &chai) {
+  for (const char *prefix : {"f", "g"}) {
+    for (int k = 0; k < 3; ++k) {
+      for (int a = 0; a < 3; ++a) {
+        const std::string name = prefix + std::to_string(k);
+        std::string args, margs;
+        for (int i = 0; i < a; ++i) { args += (i ? ", " : "") + std::string("\"s\""); if (i > 0) margs += (i > 1 ? ", " : "") + std::string("\"s\""); }
+        chai.eval("def pobs_" + name + "_" + std::to_string(a) + "() { " + name + "(" + args + ") }");
+        if (a > 0) chai.eval("def pobm_" + name + "_" + std::to_string(a) + "() { \"s\"." + name + "(" + margs + ") }");
+      }
+    }
+  }
 }
 
 static std::string observe(ChaiScript &chai) {
@@ -61,6 +81,7 @@ int main() {
     if (w.size() != 2 || w[0] != "state") { std::cout << "bad-op\n"; continue; }
     ChaiScript chai({}, {dir});
     chai.add(fun(&logfn), "log");
+    define_persistent_observers(chai);
     g_evals.clear();
     std::vector<ChaiScript::State> snaps;
     std::string out;
